@@ -32,6 +32,9 @@ Tpl == {
 TplSib == { Imp("plain", <<"pk","sub","mod">>, ""), Imp("plain", <<"pk","sib","mod">>, ""), Imp("plain", <<"pk","mod">>, ""),
   Bnd(<<"pk","sub","mod","fn">>, "x", "5"), Bnd(<<"pk","sib","mod","fn">>, "x", "6"), Bnd(<<"pk","mod","fn">>, "x", "1"),
   Bnd(<<"pk","mod","Cls","meth">>, "x", "2") }
+\* the re-binding family: one name bound by two import statements of one file to different modules (the later wins)
+TplRebind == { Imp("from", <<"pk","mod">>, ""), Imp("from", <<"pk","sub","mod">>, ""), Imp("as", <<"pk","mod">>, "m"), Imp("as", <<"pk","sub","mod">>, "m"),
+  Bnd(<<"mod","fn">>, "x", "3"), Bnd(<<"m","fn">>, "x", "2") }
 SkipFalseOnly == { [mode |-> "false", names |-> {}] }
 NoPrev == { <<>> }
 \* earlier files: one that registered fn through pk.mod, one that registered pk.sub.mod's fn through a from-import
